@@ -15,7 +15,7 @@ import numpy as np
 
 from . import model as M
 from . import oracles as O
-from .core import HarnessError, SimInterrupt, SimModelError, digest_of, jsonable
+from .core import HarnessError, SimInterrupt, SimModelError, digest_of, jsonable, to_np
 from .harness import violation
 from .runner import payload_digest, read_file_checkpoint, run_process
 
@@ -135,6 +135,9 @@ def explore(
     # ---------------- reference ----------------
     reset_file()
     ref = run_process(scn, workdir, audit_file=file_mode, initial_file_payload=pre_final)
+    final_file = os.path.join(workdir, "state_final.h5")
+    if file_mode and os.path.exists(os.path.join(workdir, "run.h5")):
+        shutil.copy(os.path.join(workdir, "run.h5"), final_file)
     out["evaluations"] += 1
     out["events"] += len(ref.trace.events)
     if ref.status != "ok":
@@ -332,13 +335,34 @@ def explore(
             states[key] = st
         states[key]["n"] += 1
 
+    # The process may also die AFTER the run's last checkpoint was delivered (while the caller writes its results, say): no
+    # model call follows that checkpoint, so no crash point above leaves it behind -- it is added as one more durable state.
+    if ref.payloads and ("c11" in want or "c18" in want or "c08" in want or "c10" in want):
+        fin = ref.payloads[-1][2]
+        fkey = payload_digest(fin)
+        if fkey not in states:
+            live = None
+            if ck["mode"] == "callback" and ref.live_states:
+                live = ref.live_states[-1]
+            elif file_mode and ref.sampler is not None:
+                live = ref.sampler.last_checkpoint_state
+            st = {"payload": fin, "n": 1, "first": ("after_run", -1, "after_final"), "file": None, "live": live, "final": True}
+            if file_mode and os.path.exists(final_file):
+                st["file"] = final_file
+            if st["file"] is not None or not file_mode:
+                states[fkey] = st
+                fired("death_after_the_final_checkpoint")
     out["states"] = len(states)
     # ---------------- restarts ----------------
     st_list = list(states.values())
     if max_states is not None and len(st_list) > max_states:
         rng = rng or np.random.default_rng(0)
         keep = sorted(rng.choice(len(st_list), size=max_states, replace=False).tolist())
+        fin_states = [x for x in st_list if x.get("final")]
         st_list = [st_list[i] for i in keep]
+        for x in fin_states:
+            if not any(y is x for y in st_list):
+                st_list.append(x)
     use_routes = [r for r in routes if file_mode or r in ("bytes", "dict")]
     if "dict" in use_routes:
         use_routes = use_routes + ["dict_live"]
@@ -427,6 +451,21 @@ def explore(
                     V.append(violation("c11.liveness", f"resumed run needed {len(r.history.beta)} iterations, reference {n_iter}", wr))
             if "c18" in want:
                 V += [_tag(v, route=route) for v in O.check_history(r, scn, resumed=True, props=("c18",))]
+                # a resumed run continues the record it was handed: the populations the checkpoint already held must still be
+                # there, unchanged, in the same places
+                hh = ck_state.get("history")
+                held = list(getattr(hh, "sample_history", []) or []) if route != "dict_live" else []
+                got_pops = list(r.history.sample_history)
+                for i_, q in enumerate(held):
+                    a = np.asarray(to_np(q.x), dtype=np.float64)
+                    b = np.asarray(to_np(got_pops[i_].x), dtype=np.float64) if i_ < len(got_pops) else None
+                    if b is None or a.shape != b.shape or not np.array_equal(a, b, equal_nan=True):
+                        V.append(violation(
+                            "c18.rewritten_population",
+                            f"resumed via {route} from iteration {it0}: stored population {i_}, which the checkpoint already held "
+                            f"({a.shape[0]} particles), is {'missing' if b is None else f'different in the resumed record ({b.shape[0]} particles)'}",
+                            wr, index=i_))
+                        break
             if "c08" in want:
                 V += [_tag(v, route=route) for v in O.check_history(r, scn, resumed=True, props=("c08",))]
             if "c10" in want:
@@ -436,7 +475,9 @@ def explore(
     # ---------------- second crash inside the resumed run (file state between resume and the next checkpoint) ----------------
     if second_crash and file_mode and "c12" in want:
         for si, st in enumerate(st_list):
-            for route in ("resume_from_file", "path"):
+            if st.get("final"):
+                continue
+            for route in ("resume_from_file", "path", "resume_from_file_kwargs"):
                 # the continuation may ask for another cadence (resume_kwargs / a new auto_checkpoint context do that)
                 scn2 = scn
                 it0 = pickle.loads(st["payload"]).get("iteration") or 0
